@@ -87,6 +87,9 @@ fn features(items: &[Item]) -> Vec<&'static str> {
 
 impl SubCheck for C10 {
     type Case = ProgCase;
+    fn crash_guard(&self) -> bool {
+        true
+    }
     fn name(&self) -> &'static str {
         "c10-wellformed"
     }
